@@ -466,6 +466,19 @@ func check(scen string, in In) []*mc.Violation {
 		}
 	}
 	vs = append(vs, accessors(scen, in, tables, paras)...)
+	// accessors compute from the fields, they do not rewrite them: every field observes the same value afterwards
+	// (and the accessors that build lists are called a second time inside accessors())
+	for pi, t := range tables {
+		for fi, f := range t {
+			fv := paras[pi].FieldByName(f.Go)
+			if !fv.IsValid() {
+				continue
+			}
+			if w, got := want(f, in.Choices[pi][fi]), Observe(fv, f.Kind); got != w {
+				vs = append(vs, mc.V(scen, "accessor-agrees-with-model", in, fmt.Sprintf("%s[%d].%s = %s after the accessors were called", in.Kind, pi, f.Go, w), got, append([]string{"field:" + in.Kind + "." + f.Go}, feats...)...))
+			}
+		}
+	}
 	return vs
 }
 
@@ -526,6 +539,9 @@ func accessors(scen string, in In, tables [][]FSpec, paras []reflect.Value) []*m
 		wantM := append([]string{firstLine(mf, mc0)}, wantList(uf, uc)...)
 		if g := d.Maintainers(); strings.Join(g, "|") != strings.Join(wantM, "|") {
 			bad("dsc.Maintainers()", strings.Join(wantM, "|"), strings.Join(g, "|"))
+		}
+		if g := d.Maintainers(); strings.Join(g, "|") != strings.Join(wantM, "|") {
+			bad("dsc.Maintainers() called twice", strings.Join(wantM, "|"), strings.Join(g, "|"))
 		}
 		af, ac := choiceOf(in, tables, 0, "Architecture")
 		wantAll := ac >= 0 && strings.Contains(" "+af.Vars[ac].Lines[0]+" ", " all ")
@@ -633,6 +649,9 @@ func accessors(scen string, in In, tables [][]FSpec, paras []reflect.Value) []*m
 		wantM := append([]string{firstLine(mf, mc0)}, wantList(uf, uc)...)
 		if g := s.Maintainers(); strings.Join(g, "|") != strings.Join(wantM, "|") {
 			bad("control.Source.Maintainers()", strings.Join(wantM, "|"), strings.Join(g, "|"))
+		}
+		if g := s.Maintainers(); strings.Join(g, "|") != strings.Join(wantM, "|") {
+			bad("control.Source.Maintainers() called twice", strings.Join(wantM, "|"), strings.Join(g, "|"))
 		}
 	case "packages":
 		for pi := range paras {
